@@ -461,72 +461,76 @@ Definition op_new (e : env) (w : world) (h : nat) (tr : option kind) (len : nat)
   let '(w2, id) := alloc e w1 len imm ncp tr in
   Ok (set_hnd w2 h (Some id), OOk).
 
+(* mpt_array_reserve, shared or immutable buffer (or none): a distinct instance is required *)
+Definition reserve_distinct (e : env) (w : world) (h : nat) (len : nat) (tr : option kind)
+  (ob : option (nat * buf)) : res (world * out) :=
+  (* compatible content is kept *)
+  let used := match ob with
+              | Some (_, b) =>
+                if okind_eqb (btr b) tr && negb (bncp b) then
+                  match btr b with Some ko => bused b - bused b mod esz e ko | None => bused b end
+                else 0
+              | None => 0 end in
+  let '(w1, rid) := alloc e w (if len <? used then used else len) false false tr in
+  match ob with
+  | None => Ok (set_hnd w1 h (Some rid), OOk)
+  | Some (id, b) =>
+    if negb (used =? 0) then
+      match hget w1 rid with
+      | None => Fault
+      | Some rb =>
+        do '(rb', c', rv) <- buffer_set e rb tr 0 (Some (bslots b)) used (wctx w1);
+        match rv with
+        | RErr _ => do w2 <- unref e (hput w1 rid (Some rb') c') rid; Ok (w2, ORefused)
+        | RCount _ =>
+          do w2 <- unref e (hput w1 rid (Some rb') c') id; Ok (set_hnd w2 h (Some rid), OOk)
+        end
+      end
+    else do w2 <- unref e w1 id; Ok (set_hnd w2 h (Some rid), OOk)
+  end.
+
+(* mpt_array_reserve: clear incompatible data on non-shared buffer *)
+Definition reserve_clear (e : env) (b : buf) (tr : option kind) (c : ctx) : res (buf * ctx) :=
+  if okind_eqb (btr b) tr then Ok (b, c) else
+  match btr b with
+  | Some ko =>
+    let size := esz e ko in
+    let used := bused b - bused b mod size in
+    do '(sl1, c1) <- fini_loop (S used) size (bsize b) 0 0 used (bslots b) c;
+    Ok (with_used (with_slots b sl1) 0, c1)
+  | None => Ok (with_used b 0, c)
+  end.
+
+(* mpt_array_reserve, private mutable buffer: existing data can be reused *)
+Definition reserve_reuse (e : env) (w : world) (h : nat) (len : nat) (tr : option kind)
+  (id : nat) (b : buf) : res (world * out) :=
+  do '(b1, c1) <- reserve_clear e b tr (wctx w);
+  let w1 := hput w id (Some b1) c1 in
+  do '(w2, r) <- detach e w1 id len;
+  match r with
+  | None => Ok (w2, ORefused)
+  | Some nid =>
+    match hget w2 nid with
+    | None => Fault
+    | Some nb => Ok (set_hnd (hput w2 nid (Some (retag e nb tr)) (wctx w2)) h (Some nid), OOk)
+    end
+  end.
+
 (* mpt_array_reserve(arr = h, len, traits) *)
 Definition array_reserve (e : env) (w : world) (h : nat) (len0 : nat) (tr : option kind)
   : res (world * out) :=
-  match match tr with Some k => if esz e k =? 0 then None else Some tt | None => Some tt end with
-  | None => Ok (w, ORefused)
-  | Some _ =>
-    let len := match tr with
-               | Some k => let s := esz e k in if len0 mod s =? 0 then len0 else len0 + (s - len0 mod s)
-               | None => len0 end in
-    let ob := match handle w h with Some id => match hget w id with Some b => Some (id, b) | None => None end
-                                  | None => None end in
-    match handle w h, ob with
-    | Some _, None => Fault
-    | _, _ =>
-      let distinct := match ob with Some (_, b) => shared b || bimm b | None => true end in
-      if distinct then
-        (* compatible content is kept *)
-        let used := match ob with
-                    | Some (_, b) =>
-                      if okind_eqb (btr b) tr && negb (bncp b) then
-                        match btr b with Some ko => bused b - bused b mod esz e ko | None => bused b end
-                      else 0
-                    | None => 0 end in
-        let '(w1, rid) := alloc e w (if len <? used then used else len) false false tr in
-        match ob with
-        | None => Ok (set_hnd w1 h (Some rid), OOk)
-        | Some (id, b) =>
-          if negb (used =? 0) then
-            match hget w1 rid with
-            | None => Fault
-            | Some rb =>
-              do '(rb', c', rv) <- buffer_set e rb tr 0 (Some (bslots b)) used (wctx w1);
-              match rv with
-              | RErr _ => do w2 <- unref e (hput w1 rid (Some rb') c') rid; Ok (w2, ORefused)
-              | RCount _ =>
-                do w2 <- unref e (hput w1 rid (Some rb') c') id; Ok (set_hnd w2 h (Some rid), OOk)
-              end
-            end
-          else do w2 <- unref e w1 id; Ok (set_hnd w2 h (Some rid), OOk)
-        end
-      else
-        match ob with
-        | None => Fault
-        | Some (id, b) =>
-          (* clear incompatible data on non-shared buffer *)
-          do '(b1, c1) <-
-            (if okind_eqb (btr b) tr then Ok (b, wctx w) else
-             match btr b with
-             | Some ko =>
-               let size := esz e ko in
-               let used := bused b - bused b mod size in
-               do '(sl1, c1) <- fini_loop (S used) size (bsize b) 0 0 used (bslots b) (wctx w);
-               Ok (with_used (with_slots b sl1) 0, c1)
-             | None => Ok (with_used b 0, wctx w)
-             end);
-          let w1 := hput w id (Some b1) c1 in
-          do '(w2, r) <- detach e w1 id len;
-          match r with
-          | None => Ok (w2, ORefused)
-          | Some nid =>
-            match hget w2 nid with
-            | None => Fault
-            | Some nb => Ok (set_hnd (hput w2 nid (Some (retag e nb tr)) (wctx w2)) h (Some nid), OOk)
-            end
-          end
-        end
+  if match tr with Some k => esz e k =? 0 | None => false end then Ok (w, ORefused) else
+  let len := match tr with
+             | Some k => let s := esz e k in if len0 mod s =? 0 then len0 else len0 + (s - len0 mod s)
+             | None => len0 end in
+  match handle w h with
+  | None => reserve_distinct e w h len tr None
+  | Some id =>
+    match hget w id with
+    | None => Fault
+    | Some b =>
+      if shared b || bimm b then reserve_distinct e w h len tr (Some (id, b))
+      else reserve_reuse e w h len tr id b
     end
   end.
 
